@@ -19,6 +19,7 @@ oracle leg           `PIT.eval()(x)` vs `export().eval()(x)` (re-created BatchNo
                      statistics of the ones they replace) on (a) and (b), float tolerance 2e-4*scale.
 """
 import json
+from fractions import Fraction
 
 from .. import common, pitcheck, pitsem, pittime
 
@@ -110,6 +111,7 @@ def run(chk):
     outs = common.pmap(pittime.single_layer_export, jobs)
     lines = [pittime.line(K, d0, beta, gamma) for (K, d0, beta, gamma, _) in jobs]
     answers = chk.driver('PITTime', lines)
+    int_jobs = []
     for job, o, ans in zip(jobs, outs, answers):
         K, d0, beta, gamma, seed = job
         _, toks = pittime.model_answer(ans)
@@ -124,6 +126,22 @@ def run(chk):
         chk.corr(case, real, mod, 'exported Conv1d: kernel, dilation, re-created padding, ID-probed kept taps')
         if o.get('diff'):
             chk.violation('C01:eval-vs-export:time-mask', 'exported causal Conv1d differs from the masked one: ' + o['diff'], case)
+        if o.get('int'):
+            int_jobs.append((case, o['int'], job))
+    # the executable layer functions of the theorem (maskedConvAt / exportedConvAt) vs the real layers, exactly
+    fr = lambda v: str(Fraction(float(v)))
+    lst = lambda r: '[' + ','.join(str(v) for v in r) + ']'
+    lines = ['conv K=%d d0=%d s=%d T=%d cout=3 beta=[%s] gamma=[%s] w=[%s] b=%s x=[%s]'
+             % (job[0], job[1], it['stride'], it['T'], ','.join(fr(v) for v in job[2]), ','.join(fr(v) for v in job[3]),
+                ','.join(lst(r) for r in it['w']), lst(it['b']), ','.join(lst(r) for r in it['x']))
+             for (_, it, job) in int_jobs]
+    for (case, it, job), ans in zip(int_jobs, chk.driver('PITTime', lines) if lines else []):
+        real = 'masked=%s exported=%s' % (json.dumps(it['pit']).replace(' ', ''), json.dumps(it['exp']).replace(' ', ''))
+        chk.corr(dict(case, int=it), real, ans, 'integer execution: PITConv1d output / exported Conv1d output vs maskedConvAt / exportedConvAt')
+        chk.count(('conv-int', job[0], job[1], tuple(job[2]), tuple(job[3])), nontrivial=True, bucket='conv-int:stride=%d' % it['stride'])
+        if it['pit'] != it['exp']:
+            chk.violation('C01:eval-vs-export:time-mask:integer', 'exported causal Conv1d differs from the masked one on an integer signal '
+                          '(exact comparison): %s vs %s' % (it['pit'], it['exp']), case)
     # ---- (b) grammar nets
     n = 30 if chk.quick else 700
     broken = bool(chk.proof_broken or chk.corr_disagreements)
